@@ -13,11 +13,13 @@ import (
 	vs "github.com/emitter-io/emitter/internal/verifspec"
 )
 
-//@ assume (github.com/emitter-io/emitter/internal/service.Decryptor).DecryptKey iface post=post_DecryptKey
+// @ assume (github.com/emitter-io/emitter/internal/service.Decryptor).DecryptKey iface post=post_DecryptKey
 func post_DecryptKey(res0 security.Key, res1 error) bool { return res1 != nil || len(res0) == 24 }
 
-//@ verify (*Service).OnRequest pre=pre_OnRequest post=post_OnRequest_auth,post_OnRequest_notify props=C14
-func pre_OnRequest(s *Service, c service.Conn) bool { return s != nil && s.keygen != nil && s.cluster != nil }
+// @ verify (*Service).OnRequest pre=pre_OnRequest post=post_OnRequest_auth,post_OnRequest_notify props=C14
+func pre_OnRequest(s *Service, c service.Conn) bool {
+	return s != nil && s.keygen != nil && s.cluster != nil
+}
 func post_OnRequest_auth(s *Service, res0 service.Response, res1 bool) bool {
 	// acknowledged only with a decryptable master secret and a decryptable target of the same contract;
 	// a refused request notifies nobody
